@@ -5,7 +5,6 @@ import (
 	"sigs.k8s.io/controller-runtime/pkg/handler"
 
 	"package-operator.run/internal/constants"
-	"package-operator.run/internal/dynamiccache"
 
 	"pkg.package-operator.run/boxcutter/ownerhandling"
 )
@@ -13,5 +12,3 @@ import (
 func annotationOwnerHandler(owner client.Object, w *World) handler.EventHandler {
 	return ownerhandling.NewAnnotation(Scheme, constants.OwnerStrategyAnnotationKey).EnqueueRequestForOwner(owner, w.Mapper, false)
 }
-
-func buildTemplateControllers(p *Process, mgr, unc *Client, dc *dynamiccache.Cache) {}
